@@ -2786,6 +2786,13 @@ public:
       return;
     }
 
+    if (!(lhs == rhs)) {
+      // lhs gets the contents of rhs: forget the cells that lhs had so
+      // far. Otherwise a cell of lhs without counterpart in rhs keeps
+      // its old scalar (and its old value) in the base domain.
+      forget_array(lhs);
+    }
+
     const array_state &as = lookup_array_state(rhs);
     if (!as.is_smashed()) {
       offset_map_t lhs_om;
